@@ -58,17 +58,6 @@ def holdsDropGlyph (src : QGlyph) (obs : List (List TTPoint)) : Bool :=
 /-- the option did its job: no on-curve point of the compiled contour is the midpoint of two off-curve neighbours any more -/
 def noImpliableLeft (obs : List TTPoint) : Bool := (contourMask dropTest (ofTT obs)).all (fun b => !b)
 
-/-- a single font's glyph: only impliable points are missing, and none is left -/
-def holdsDropGlyphMax (src : QGlyph) (obs : List (List TTPoint)) : Bool :=
-  holdsDropGlyph src obs && obs.all noImpliableLeft
-
-/-- a glyph that ends up simple: every contour of its resolved source outline, in TrueType convention, is there with only
-    impliable points missing, and no impliable point is left -/
-def holdsSimpleDrop (o : Opts) (gs : GlyphSet) (g : Glyph) (obs : List (List TTPoint)) : Bool :=
-  holdsDropGlyphMax ((renderGlyph gs g).map (fun c => toQPts (ttContour o c))) obs
-
-/-! ### joint dropping, observed on the variable font's default glyf entry -/
-
 /-- the points of `c` that carry the observed flags: walking `c`, a point whose flag is the next observed flag is taken,
     any other point is passed over (for a contour obtained by leaving out on-curve points between two off-curve points
     this recovers exactly the points that were kept) -/
@@ -77,21 +66,69 @@ def pickByFlags : List QPt → List Bool → List QPt
   | _, [] => []
   | p :: l, f :: fs => if p.on == f then p :: pickByFlags l fs else pickByFlags l (f :: fs)
 
+/-- the option did its job on the SOURCE coordinates (the code tests before it rounds): of the source points that are still
+    there (those the observed flags pick) none passes the code's own two-armed test any more -/
+def noImpliableLeftSrc (src : List QPt) (obs : List TTPoint) : Bool :=
+  (contourMask dropTest (pickByFlags src (obs.map (·.on)))).all (fun b => !b)
+
+/-- a single font's glyph: only impliable points are missing, and none is left — neither in the compiled contour nor, tested
+    on the unrounded source coordinates, among the source points that were kept -/
+def holdsDropGlyphMax (src : QGlyph) (obs : List (List TTPoint)) : Bool :=
+  holdsDropGlyph src obs && obs.all noImpliableLeft && (src.zip obs).all (fun e => noImpliableLeftSrc e.1 e.2)
+
+/-- a glyph that ends up simple: every contour of its resolved source outline, in TrueType convention, is there with only
+    impliable points missing, and no impliable point is left -/
+def holdsSimpleDrop (o : Opts) (gs : GlyphSet) (g : Glyph) (obs : List (List TTPoint)) : Bool :=
+  holdsDropGlyphMax ((renderGlyph gs g).map (fun c => toQPts (ttContour o c))) obs
+
+/-! ### joint dropping, observed on the variable font's default glyf entry -/
+
 /-- the observed flag pattern fits master contour `c`: the points picked by the flags use the flags up, and compiled alone
     with exactly that point set the master would still render its own outline within rounding -/
 def fitsMaster (c : List QPt) (flags : List Bool) : Bool :=
   let pick := pickByFlags c flags
   pick.map (·.on) == flags && sameOutline (1/2) c (ofTT (roundQ pick))
 
+/-- what is left of master `g`'s contour `i`: the points the observed flags pick -/
+def keptOf (g : QGlyph) (obs : List (List TTPoint)) (i : Nat) : List QPt :=
+  pickByFlags (g.getD i []) ((obs.getD i []).map (·.on))
+
+/-- pointwise "and" of a list of masks -/
+def andMasks : List (List Bool) → List Bool
+  | [] => []
+  | m :: ms => ms.foldl (List.zipWith (fun x y => x && y)) m
+
+/-- **joint maximality**: the joint drop has happened — in no contour is there a point left that passes the code's own
+    two-armed test (on the masters' own unrounded coordinates, among the points that are left) in ALL participating masters -/
+def noJointImpliableLeft (simple : List QGlyph) (obs : List (List TTPoint)) : Bool :=
+  (List.range obs.length).all (fun i =>
+    (andMasks (simple.map (fun g => contourMask dropTest (keptOf g obs i)))).all (fun b => !b))
+
 /-- the default master's contours are its source contours with only impliable points missing, and — when the participating
     masters are point-compatible — the point set that is left fits EVERY master (a point that is not impliable in some
-    master is still there) -/
+    master is still there) and nothing that is impliable in every master is left -/
 def holdsJoint (masters : List QGlyph) (dflt : Nat) (obs : List (List TTPoint)) : Bool :=
   holdsDropGlyph (masters.getD dflt []) obs &&
   ((masters.getD dflt []).isEmpty ||
    let simple := simpleMasters masters
    let compatible := simple.all (fun g => shape g == shape (simple.headD []))
    !compatible ||
-   simple.all (fun g => g.length == obs.length && (g.zip obs).all (fun e => fitsMaster e.1 (e.2.map (·.on)))))
+   (simple.all (fun g => g.length == obs.length && (g.zip obs).all (fun e => fitsMaster e.1 (e.2.map (·.on)))) &&
+    noJointImpliableLeft simple obs))
+
+/-! ### every master's outline survives in the variable font -/
+
+def nearInt (tol : Int) (a b : Int) : Bool := decide (a - b ≤ tol) && decide (b - a ≤ tol)
+
+/-- the variable font instantiated at master `g`'s location (`inst`), against that master: the same contours and flags as
+    the default glyf entry (`obs`), and every point is the master's own point — the one the flags pick — rounded, within
+    `tol` units (gvar deltas are rounded, IUP-optimised deltas are inferred within 1/2 and the instance is rounded again) -/
+def holdsInstance (tol : Int) (g : QGlyph) (obs inst : List (List TTPoint)) : Bool :=
+  inst.length == obs.length &&
+  (List.range obs.length).all (fun i =>
+    let pick := roundQ (keptOf g obs i)
+    let ci := inst.getD i []
+    ci.length == pick.length &&
+    (pick.zip ci).all (fun e => e.1.on == e.2.on && nearInt tol e.1.x e.2.x && nearInt tol e.1.y e.2.y))
 
 end Ufo2ft.C02
